@@ -90,6 +90,16 @@ def build_gate(spec: dict):
         return G.Reset(spec.get('radix', 2))
     cls = getattr(G, g)
     args = spec.get('a', [])
+    km = spec.get('kwmode', 0)
+    if km and args:
+        # the same construction spelled with keyword arguments (1: values as
+        # given, 2: lists as tuples so that the instance cache is used)
+        import inspect
+        names = list(inspect.signature(cls.__init__).parameters)[1:]
+        if len(names) >= len(args):
+            kw = {names[i]: (tuple(a) if km == 2 and isinstance(a, list)
+                             else a) for i, a in enumerate(args)}
+            return cls(**kw)
     return cls(*args)
 
 
